@@ -3,6 +3,7 @@ import FlVerif.Props.C12
 import FlVerif.Lemmas.CodeSessionInputs
 import FlVerif.Lemmas.CodeEngineIOLookup
 import FlVerif.Lemmas.CodeEngineIOValues
+import FlVerif.Lemmas.CodeWave5XVar
 
 /-! # C02 — Batch (vectorised) processing equals row-by-row float processing
 
@@ -142,6 +143,15 @@ theorem code_inputVariable {V : Type} [Inhabited V] (nameOf : V → String) (com
     | .error e => Gen.Code.Engine_input_variable.run nameOf comps k {} = .error e.toPy
     | .ok x => ∃ σ, Gen.Code.Engine_input_variable.run nameOf comps k {} = .ok σ ∧ σ.ret = some x :=
   Op.Engine.code_inputVariable nameOf comps k
+
+/-- **Tie A.**  `Variable.term(name_or_index)` (`variable.py`) = the same model `lookup` on the terms of the variable: an
+    `int` (also a `bool`) indexes the list like Python - negative from the end, `IndexError` outside -, a name finds
+    the FIRST term of that name, `ValueError` when there is none. -/
+theorem code_variableTerm {V : Type} [Inhabited V] (nameOf : V → String) (terms : List V) (k : Key) :
+    match lookup nameOf terms k with
+    | .error e => Gen.Code.Variable_term.run nameOf terms k {} = .error e.toPy
+    | .ok x => ∃ σ, Gen.Code.Variable_term.run nameOf terms k {} = .ok σ ∧ σ.ret = some x :=
+  Op.Engine.code_variableTerm nameOf terms k
 
 /-- **Tie A.**  `Engine.output_variable(name_or_index)` = the model `lookup`. -/
 theorem code_outputVariable {V : Type} [Inhabited V] (nameOf : V → String) (comps : List V) (k : Key) :
